@@ -15,7 +15,8 @@ META = {
             "'nan' entries only where the unique has strictly fewer parameters; uniques pairwise distinct, parameters without gaps; all per-function "
             "files have one line per function. Step (3) of do_sympy (both copies of the loop) is verified: every function takes the new string of its own unique function and its chain is the old chain followed, in order, by "
             "what the round recorded for that unique function (nothing appended when nothing was recorded), with a composition lemma over get_unique_indexes' contract and an ASSUMED per-step "
-            "relation for sympy_simplify. The round files, the chain assembly in duplicate_checker.main "
+            "relation for sympy_simplify. The chain assembly in duplicate_checker.main (`all_inv_subs = [[]] * ntot` and the loop over the rounds) is verified: the final chain of every function is the "
+            "concatenation, in round order, of the rows recorded for it in the round files (a round without a row contributes nothing; the aliased empty lists are never mutated). The writers/readers of the round files "
             "(all_inv_subs = [[]] * ntot with rebinding) and the per-step contract of sympy_simplify are covered by the bounded part only; the cancellation of chains is C17. "
             "The repair step: the rank-0 bookkeeping at the end of check_results is verified in three regions (which strings are appended to the unique list: pairwise distinct, never an "
             "old unique function, every un-merged function found in old_pos or among the appended ones; the map rows of the un-merged functions become the empty row, all others unchanged; "
@@ -72,6 +73,11 @@ def check(run):
         failed_all += failed
         if st == "proved" and D.canary(run, "generation/simplifier.py", "do_sympy", (lambda w=w: c_dosympy.replace_contract(w))) is False:
             raise RuntimeError("canary verified: engine vacuous on the replacement loop of do_sympy")
+    st, failed, eng = D.verify_function(run, "generation/duplicate_checker.py", "main", c_dosympy.combine_rounds_contract, timeout_ms=15000, tag="combine-rounds",
+                                        note="region: all_inv_subs = [[]] * ntot and the loop over the rounds (rank-0 view); load_subs / np.loadtxt as the rows and index lines of the round files")
+    failed_all += failed
+    if st == "proved" and D.canary(run, "generation/duplicate_checker.py", "main", c_dosympy.combine_rounds_contract) is False:
+        raise RuntimeError("canary verified: engine vacuous on the round-combination region")
     lfailed0 = D.prove_lemmas(run, "do_sympy: composition with get_unique_indexes", c_dosympy.composition_lemma(), timeout_ms=20000)
     lfailed = D.prove_lemmas(run, "check_results: composition of the un-merge regions", c_checkres.composition_lemmas(), timeout_ms=20000)
     crjob = {"runname": "core_maths", "n": 4, "P_list": [1, 2] if tier == "quick" else [1, 2, 5], "ncorrupt": 6 if tier == "quick" else 12}
